@@ -3,6 +3,10 @@
 import json, subprocess
 
 CLAIMED = {
+ "C05": dict(
+   text="Seeded deterministic simulation with the host schedule as the explored dimension: each run executes one drawn workload (copies, copy kernels, queued and synchronous commands; emulation platforms and shipped r9nano/mi300a timing platforms with the DMA path) four times in fresh processes with the stock SerialEngine's event order - canonical host schedule, two different drawn host schedules of the real application/runAsync/runEngine goroutines (synctest + controlled scheduler), and one repetition under another GOMAXPROCS - and compares simulated times at every API return, final time, event count and device data. Decides: same schedule => identical across processes/core counts (R1), data identical across host schedules (R2b), times identical across host schedules (R2a). R2a is violated on the unchanged tree by a genuine defect that is recorded as a known finding (host timing leaks into the time at which the driver's tick is scheduled); R1 and R2b hold. Exploration, not proof.",
+   note="Trusted: faithful engine mode equals sim.SerialEngine's order, synctest, the controller; one application thread. The parallel-engine clause is exercised by the tie-permuting runs of the other whole-platform checks. Reported metrics are represented by simulated times and event counts, not by the reporter's table.",
+   ref="6 (C05), 12"),
  "C08": dict(
    text="Two seeded simulations per property. (1) Whole platforms (emulation with the gcn3 or cdna3 ALU, shipped r9nano and mi300a timing platforms; one GPU or a unified 2-4 GPU device) run an id-probe kernel assembled per geometry (kasm; every instruction checked with the repository's disassembler; V2/V3-style and V5-style id conventions): each lane derives its global coordinates from the hardware-initialised ids, increments count[cell] and stores its raw ids in an array padded beyond the grid; oracle: count is 1 on every grid cell and 0 on every padding cell, ids decode to the cell. (2) The real command processor with all three placement algorithms (partition included, through the verif hook) dispatches launches that carry work-group filters, as a unified multi-GPU launch does: every filter-selected work-group is mapped exactly once, none outside the filter, announced count = produced. Two genuine defects found and repaired (fix: commits: wavefront formation in partial work-groups, V5 id packing in the timing CU). Exploration, not proof.",
    note="Trusted: kasm (self-checked against the repository's disassembler and by a fixed self-test geometry per platform), synctest, the controller. Whole platforms use the round-robin algorithm their builders hard-code.",
@@ -64,7 +68,6 @@ NOT_APPLICABLE = [
 PENDING = {
  "C01": "check not built yet (planned: whole-platform simulation, DESIGN 6 C01)",
  "C02": "check not built yet (planned: emu-vs-timing differential simulation, DESIGN 6 C02)",
- "C05": "check not built yet (planned: host-schedule exploration under the goroutine controller, DESIGN 6 C05)",
 }
 
 def hook_commits():
